@@ -328,7 +328,7 @@ var rR20n = RuleRef{Name: "R20n", Doc: "a counter mirrors its table: Chan.numSub
 				}
 				isTable := func(m ssa.Value) bool { return c.isMirroredTable(m, pair) }
 				// the closest dominating comma-ok lookup of the table that decides the edge into this block's region
-				var gMap, gKey ssa.Value
+				var gMap, gKey string
 				gTruth, found := false, false
 				var gBlock *ssa.BasicBlock
 				for d := b; d != nil && d.Idom() != nil && !found; d = d.Idom() {
@@ -347,18 +347,14 @@ var rR20n = RuleRef{Name: "R20n", Doc: "a counter mirrors its table: Chan.numSub
 						}
 						cond, neg = u.X, !neg
 					}
-					ex, ok := cond.(*ssa.Extract)
-					if !ok || ex.Index != 1 {
+					mc, kc, tbl, ok := commaOkLookup(cond)
+					if !ok || !isTable(tbl) {
 						continue
 					}
-					lk, ok := ex.Tuple.(*ssa.Lookup)
-					if !ok || !lk.CommaOk || !isTable(lk.X) {
-						continue
-					}
-					gMap, gKey, gTruth, found, gBlock = lk.X, lk.Index, !neg, true, d
+					gMap, gKey, gTruth, found, gBlock = mc, kc, !neg, true, d
 				}
 				sameEntry := func(m, k ssa.Value) bool {
-					return gMap != nil && canon(m) == canon(gMap) && canon(k) == canon(gKey)
+					return gMap != "" && canon(m) == gMap && canon(k) == gKey
 				}
 				bad := ""
 				if delta == -1 {
@@ -393,10 +389,8 @@ var rR20n = RuleRef{Name: "R20n", Doc: "a counter mirrors its table: Chan.numSub
 							if found && !gTruth && sameEntry(mu.Map, mu.Key) {
 								ins = true
 							}
-							if call, ok := mu.Key.(*ssa.Call); ok && !found {
-								if cf := call.Call.StaticCallee(); cf != nil && cf.Pkg != nil && strings.HasSuffix(cf.Pkg.Pkg.Path(), "/uuid") {
-									ins = true // a freshly generated id cannot be in the table
-								}
+							if !found && c.freshID(mu.Key, 0) {
+								ins = true // a freshly generated id cannot be in the table
 							}
 						}
 					}
